@@ -112,6 +112,48 @@ def classify(run, lmap, fns_by_key):
                          "src_file": (fnmeta or {}).get("file"), "src_line": (fnmeta or {}).get("src_line")})
     return failures, frontend, canary
 
+AMBIGUOUS = {"from", "into", "as_ref", "deref", "default", "fmt", "eq", "ne", "new", "len", "clone", "try_from", "try_into", "add", "to_string", "unwrap", "map_err", "to_vec", "to_owned"}
+def call_cone(fns_by_key):
+    """property -> set of fn keys its proof depends on: closure of a name-based call graph from the functions that carry its obligations"""
+    by_name = {}
+    for k, f in fns_by_key.items(): by_name.setdefault(f["fn"], []).append(k)
+    def type_of(k):
+        m = re.search(r"for (\w+)|impl(?:<[^>]*>)?\s*(?:crate::\w+(?:::\w+)*::)?(\w+)", fns_by_key[k]["impl"])
+        return (m.group(1) or m.group(2)) if m else None
+    edges = {}
+    for k, f in fns_by_key.items():
+        bt = f.get("body_text", ""); out = set()
+        for m in re.finditer(r"(\w+)(?:::<[^()]*?>)?::(\w+)\s*\(", bt):
+            ty, name = m.group(1), m.group(2)
+            for c in by_name.get(name, []):
+                cty = type_of(c)
+                if ty == "Self":
+                    if fns_by_key[c]["impl"] == f["impl"] or cty == type_of(k): out.add(c)
+                elif cty == ty or (fns_by_key[c]["impl"] == "-" ): out.add(c)
+        for m in re.finditer(r"\.(\w+)\s*\(", bt):
+            name = m.group(1)
+            if name in AMBIGUOUS: continue
+            cands = by_name.get(name, [])
+            if 0 < len(cands) <= 12: out |= set(cands)
+        for m in re.finditer(r"(?<![\w:.])(\w+)\s*\(", bt):
+            for c in by_name.get(m.group(1), []):
+                if fns_by_key[c]["impl"] == "-": out.add(c)
+        out.discard(k); edges[k] = out
+    cone = {}
+    for p in PROP_IDS:
+        roots = set()
+        for k, f in fns_by_key.items():
+            ps = set(f.get("safety", []))
+            for l in f.get("ens_labels", []): ps |= set(label_props(l)) if re.match(r"^C\d\d", l) else set()
+            if p in ps: roots.add(k)
+        seen = set(roots); todo = list(roots)
+        while todo:
+            x = todo.pop()
+            for y in edges.get(x, ()):
+                if y not in seen: seen.add(y); todo.append(y)
+        cone[p] = seen
+    return cone
+
 def scan_assumptions(text):
     """mechanical scan of the generated unit for every trusted construct (DESIGN 1.7)"""
     out = {"external_body": 0, "assume_specification": 0, "axiom fn": 0, "assume(": 0, "admit(": 0, "uninterp spec fn": 0}
@@ -119,14 +161,14 @@ def scan_assumptions(text):
         out[k] = len(re.findall(re.escape(k), text))
     return out
 
-def build_unit(src, out_path):
+def build_unit(src, out_path, stub_fns=(), drop_uses=()):
     os.environ["VERIF_REPO_SRC"] = src
     extract.REPO_SRC = src
     specs = sorted(glob.glob(os.path.join(VERIF, "contracts", "*.vspec")))
     shims = sorted(glob.glob(os.path.join(VERIF, "shims", "*.rs"))) + sorted(glob.glob(os.path.join(VERIF, "specs", "*.rs")))
     rx = re.compile(CONFIG["exclude"]) if CONFIG.get("exclude") else None
     inc = (lambda rel: not rx.search(rel)) if rx else None
-    return extract.build(inc, (), specs, shims, out_path)
+    return extract.build(inc, (), specs, shims, out_path, stub_fns=stub_fns, drop_uses=drop_uses)
 
 def obligations_for(ctx):
     """named obligations per property: labelled ensures clauses + one body-safety obligation per fn tagged safety=..."""
@@ -152,6 +194,7 @@ def main(argv):
     ap.add_argument("--no-replay", action="store_true")
     ap.add_argument("--out", default=None)
     ap.add_argument("--no-evidence", action="store_true")
+    ap.add_argument("--write-baseline", action="store_true")
     a = ap.parse_args(argv)
     seed = int(os.environ.get("VERIF_SEED", "0") or 0)
     t0 = time.time()
@@ -160,41 +203,72 @@ def main(argv):
     build_dir = a.out or os.path.join(VERIF, "build", "run_%s" % (a.prop))
     os.makedirs(build_dir, exist_ok=True)
     unit = os.path.join(build_dir, "all.rs")
-    try:
+    if a.write_baseline:
         text, lines_meta, ctx = build_unit(a.src, unit)
-    except extract.ExtractError as e:
-        print("UNDECIDED: extraction failed: %s" % e); return 2
-    except Exception as e:
-        print("UNDECIDED: extractor crashed: %r" % e); return 2
-    lmap = LineMap(lines_meta)
-    fns_by_key = {"%s|%s::%s" % (f["file"], f["impl"], f["fn"]): f for f in ctx.fn_index}
-    runs = [run_verus(unit, seed=None)]
-    if a.tier == "thorough":
-        for s in (1 + seed, 7 + seed, 13 + seed):
-            runs.append(run_verus(unit, seed=s))
-    all_fail = []; undecided = None; canary_ok = True
-    per_run = []
-    for r in runs:
-        if r["json"] is None:
-            undecided = "verus produced no JSON (tool crash?) rc=%s: %s" % (r["rc"], r["stderr"][-800:]); break
-        fails, frontend, canary = classify(r, lmap, fns_by_key)
-        vr = r["json"].get("verification-results", {})
-        if frontend or vr.get("encountered-vir-error"):
-            undecided = "front-end error in generated unit: " + "; ".join("%s @%s `%s`" % (f["message"][:200], f["line"], f["text"][:80]) for f in frontend[:5]); break
+        json.dump({"%s|%s::%s" % (f["file"], f["impl"], f["fn"]): f["body_hash"] for f in ctx.fn_index}, open(os.path.join(VERIF, "baseline_fns.json"), "w"), indent=0, sort_keys=True)
+        print("baseline written"); return 0
+    baseline = {}
+    bp = os.path.join(VERIF, "baseline_fns.json")
+    if os.path.exists(bp): baseline = json.load(open(bp))
+    stub = set(); drop_uses = set(); stub_reason = {}
+    runs = []; undecided = None; base = None
+    for attempt in range(10):
+        try:
+            text, lines_meta, ctx = build_unit(a.src, unit, stub, drop_uses)
+        except extract.ExtractError as e:
+            print("UNDECIDED: extraction failed: %s" % e); return 2
+        lmap = LineMap(lines_meta)
+        fns_by_key = {"%s|%s::%s" % (f["file"], f["impl"], f["fn"]): f for f in ctx.fn_index}
+        changed = [k for k, f in fns_by_key.items() if baseline and baseline.get(k) != f["body_hash"] and not f["external_body"] and k not in stub]
+        r = run_verus(unit)
+        crashed = (r["json"] is None) or ("panicked at" in r["stderr"]) or ("internal compiler error" in r["stderr"])
+        fails, frontend, canary = classify(r, lmap, fns_by_key) if r["json"] is not None or r["diags"] else ([], [], False)
         if any("rlimit" in (d.get("message", "").lower()) or "resource limit" in d.get("message", "").lower() for d in r["diags"]):
             undecided = "resource limit exceeded"; break
-        if not canary: canary_ok = False
-        per_run.append(fails)
+        if frontend or crashed:
+            progressed = False
+            for fe in frontend:
+                m = lmap.at(fe["line"]) if fe["line"] else None
+                if m and m.get("fn") and m.get("part") in ("body", "sig", "requires", "ensures"):
+                    k = "%s|%s::%s" % (m["file"], m.get("impl", "-"), m["fn"])
+                    if k not in stub and not fns_by_key.get(k, {}).get("external_body"):
+                        stub.add(k); stub_reason[k] = "unsupported construct: %s" % fe["message"][:160]; progressed = True
+                elif m and m.get("part") == "item" and m.get("use_norm"):
+                    if (m["file"], m["use_norm"]) not in drop_uses:
+                        drop_uses.add((m["file"], m["use_norm"])); progressed = True
+            if not progressed:
+                if changed:
+                    for k in changed: stub.add(k); stub_reason[k] = "verifier front end failed on changed code (%s)" % ("crash" if crashed else (frontend[0]["message"][:120] if frontend else "?"))
+                    progressed = True
+            if not progressed:
+                undecided = "front-end error in generated unit: " + ("verifier crashed: " + r["stderr"][-300:] if crashed and not frontend else "; ".join("%s @%s `%s`" % (f["message"][:200], f["line"], f["text"][:80]) for f in frontend[:5]))
+                break
+            continue
+        if not canary:
+            print("UNDECIDED: canary `ensures false` was PROVED - assumed contracts are inconsistent"); return 2
+        cone = call_cone(fns_by_key)
+        for f in fails:
+            if f["fn"]:
+                f["props"] = sorted(set(f["props"]) | set(p for p in PROP_IDS if f["fn"] in cone[p]))
+        runs.append(r); base = fails
+        break
+    else:
+        undecided = "could not isolate unsupported constructs after 10 attempts"
     if undecided:
         print("UNDECIDED: %s" % undecided); return 2
-    if not canary_ok:
-        print("UNDECIDED: canary `ensures false` was PROVED - assumed contracts are inconsistent"); return 2
-    base = per_run[0]
     if a.tier == "thorough":
-        names = [set(f["obligation"] for f in fr) for fr in per_run]
+        names = [set(f["obligation"] for f in base)]
+        for sd in (1 + seed, 7 + seed, 13 + seed):
+            r2 = run_verus(unit, seed=sd)
+            if r2["json"] is None: print("UNDECIDED: verus crashed under seed %d" % sd); return 2
+            f2, fe2, c2 = classify(r2, lmap, fns_by_key)
+            if fe2: print("UNDECIDED: front-end error under seed %d" % sd); return 2
+            runs.append(r2); names.append(set(f["obligation"] for f in f2))
         unstable = set.union(*names) - set.intersection(*names)
         if unstable:
             print("UNDECIDED: unstable proof (seed-dependent): %s" % sorted(unstable)); return 2
+    new_fns = set(k for k in fns_by_key if baseline and k not in baseline)
+    new_names = set(fns_by_key[k]["fn"] for k in new_fns)
     per_prop_obl = obligations_for(ctx)
     known = json.load(open(os.path.join(VERIF, "known_findings.json")))
     rc = 0
@@ -202,11 +276,20 @@ def main(argv):
     times = runs[0]["json"].get("times-ms", {})
     assumptions_scan = scan_assumptions(text)
     trusted = json.load(open(os.path.join(VERIF, "assumptions.json")))
+    exit_undecided = False
     for pid in props:
         if pid not in claimed: continue
         fails = [f for f in base if pid in f["props"]]
         obls = per_prop_obl.get(pid, [])
-        # known findings
+        # functions outside the verifier's reach (stubbed) that carry obligations of this property
+        out_of_reach = []
+        for k in stub:
+            f = fns_by_key.get(k)
+            if not f: continue
+            ps = set(f.get("safety", []))
+            for l in f.get("labels", []): ps |= set(label_props(l))
+            if not f.get("labels") and not f.get("safety"): ps |= set(SHARED)
+            if pid in ps or k in cone.get(pid, ()): out_of_reach.append((k, stub_reason.get(k, "")))
         kf = [k for k in known.get("findings", []) if k["property"] == pid]
         new_fails = []
         for f in fails:
@@ -214,23 +297,48 @@ def main(argv):
             if hit: print("KNOWN-FINDING: property=%s %s" % (pid, hit["what_fails"]))
             else: new_fails.append(f)
         failed_names = set(f["obligation"] for f in fails)
-        discharged = len([o for o in obls if o not in failed_names and not any(fn["fn"] and o.startswith(fn["fn"]) for fn in fails if o.endswith(".body.safety"))])
+        failed_fns = set(f["fn"] for f in fails if f["fn"])
+        discharged = len([o for o in obls if o not in failed_names and not (o.endswith(".body.safety") and o[:-len(".body.safety")] in failed_fns)])
+        # does a refutation rest on dropped proof hints or on a new function without contract?  then it needs a concrete witness
+        def weak(f):
+            fn = fns_by_key.get(f["fn"] or "", {})
+            if fn.get("hints_dropped"): return "proof hints lost their anchors (%s)" % ", ".join(fn["hints_dropped"])
+            bt = fn.get("body_text", "")
+            for n in new_names:
+                if re.search(r"\b%s\s*\(" % re.escape(n), bt): return "calls new function `%s` which has no contract" % n
+            if f["fn"] in new_fns: return "function is new and has no contract"
+            return None
         replay_path = None
-        if new_fails:
-            rc = 1
-            rdir = os.path.join(VERIF, "replays"); os.makedirs(rdir, exist_ok=True)
-            replay_path = os.path.join(rdir, "%s.json" % pid)
+        if new_fails or out_of_reach:
             witness = None
             if not a.no_replay:
                 witness = find_witness(pid, new_fails, a.src)
-            json.dump({"property": pid, "failed_obligations": [{k: f[k] for k in ("obligation", "kind", "fn", "label", "message", "src_file", "src_line", "text", "rendered")} for f in new_fails],
-                       "witness": witness, "verifier_cmd": runs[0]["cmd"], "unit": unit}, open(replay_path, "w"), indent=1)
-            tail = "" if (witness and witness.get("found")) else " no-failing-input-found"
-            for f in new_fails[:10]:
-                print("FAILED-OBLIGATION: property=%s %s (%s) at %s:%s" % (pid, f["obligation"], f["kind"], f["src_file"], f["src_line"]))
-            print("VIOLATION property=%s replay=%s%s" % (pid, replay_path, tail))
+            found = bool(witness and witness.get("found"))
+            strong = [f for f in new_fails if not weak(f)]
+            if strong or found:
+                rc = 1
+                rdir = os.path.join(VERIF, "replays"); os.makedirs(rdir, exist_ok=True)
+                replay_path = os.path.join(rdir, "%s.json" % pid)
+                json.dump({"property": pid,
+                           "failed_obligations": [dict({k: f[k] for k in ("obligation", "kind", "fn", "label", "message", "src_file", "src_line", "text", "rendered")}, needs_witness=weak(f)) for f in new_fails],
+                           "functions_outside_verifier": [{"fn": k, "reason": why} for k, why in out_of_reach],
+                           "witness": witness, "verifier_cmd": runs[0]["cmd"], "unit": unit}, open(replay_path, "w"), indent=1)
+                for f in new_fails[:10]:
+                    print("FAILED-OBLIGATION: property=%s %s (%s) at %s:%s" % (pid, f["obligation"], f["kind"], f["src_file"], f["src_line"]))
+                for k, why in out_of_reach:
+                    print("OUT-OF-REACH: property=%s %s (%s) - decided by the bounded witness search only" % (pid, k, why))
+                if found: print("WITNESS: %s" % witness.get("witness"))
+                print("VIOLATION property=%s replay=%s%s" % (pid, replay_path, "" if found else " no-failing-input-found"))
+            else:
+                exit_undecided = True
+                for f in new_fails[:10]:
+                    print("UNDECIDED-OBLIGATION: property=%s %s (%s): %s; no concrete failing input found" % (pid, f["obligation"], f["kind"], weak(f)))
+                for k, why in out_of_reach:
+                    print("UNDECIDED: property=%s function %s is outside the verifier's reach (%s) and the bounded witness search found no failing input" % (pid, k, why))
         if not a.no_evidence:
-            write_evidence(pid, a.tier, seed, obls, discharged, fails, runs, vr, times, ctx, assumptions_scan, trusted, time.time() - t0, unit)
+            write_evidence(pid, a.tier, seed, obls, discharged, fails, runs, vr, times, ctx, assumptions_scan, trusted, time.time() - t0, unit, out_of_reach)
+    if rc == 0 and exit_undecided:
+        return 2
     if rc == 0:
         print("OK %s: verus %d verified, 0 property obligations refuted (tier %s, %.1fs)" % (a.prop, vr.get("verified", 0), a.tier, time.time() - t0))
     return rc
@@ -248,7 +356,7 @@ def find_witness(pid, fails, src):
     except Exception as e:
         return {"found": False, "note": "witness finder failed to run: %r" % e}
 
-def write_evidence(pid, tier, seed, obls, discharged, fails, runs, vr, times, ctx, scan, trusted, wall, unit):
+def write_evidence(pid, tier, seed, obls, discharged, fails, runs, vr, times, ctx, scan, trusted, wall, unit, out_of_reach=()):
     fn_under = [f for f in ctx.fn_index if f["contract"]]
     smt = times.get("smt", {}) if isinstance(times, dict) else {}
     fb = []
@@ -288,6 +396,7 @@ def write_evidence(pid, tier, seed, obls, discharged, fails, runs, vr, times, ct
             "assumption_scan": scan,
             "unit": os.path.relpath(unit, VERIF),
             "refuted": [f["obligation"] for f in fails],
+            "functions_outside_verifier": [k for k, _ in out_of_reach],
         },
         "assumptions": trusted.get("assumption_text", []) + trusted.get("assumption_text_" + pid, []),
         "wall_s": round(wall, 2),
